@@ -600,12 +600,13 @@ def _prepare_czt_basis(N, M, K, shift, alpha, dtype, norm=False):
     # the origins of the input and output grids are samples N//2 and M//2;
     # (N-M)//2 differs from N//2 - M//2 when N is even and M is odd
     start = -(N//2 - M//2) + shift
-    j = np.arange(-start, -start+M, dtype=dtype)  # do not need a "-1" because arange is naturally end-exclusive
+    # integer ranges, shifted afterwards: np.arange with fractional end points can come out one element too long
+    j = np.arange(M, dtype=dtype) - start
     # j is an index variable
     h[:M] = np.pi * (j * j)
 
     # check for off-by-1 bug
-    j = np.arange(-start-N+1, -start, dtype=dtype)
+    j = np.arange(1-N, 0, dtype=dtype) - start
     h[K-N+1:K] = np.pi * (j * j)
 
     # order matters, scalar * scalar * array avoids operations on whole array over and over again
